@@ -1035,6 +1035,8 @@ class FunctionScope(Scope):
         # are ignored when looking at unused variables.
         self.accessed_from_special_nodes = set()
         self.current_loop_scopes = []
+        # One entry per active suppressing_subscope: the assignments made inside it.
+        self.assignment_recorders: list[dict[Varname, list[Node]]] = []
 
     def add_constraint(
         self, abstract_constraint: AbstractConstraint, node: Node, state: VisitorState
@@ -1120,6 +1122,8 @@ class FunctionScope(Scope):
             # members.
             self.name_to_current_definition_nodes[composite] = []
         self.name_to_all_definition_nodes[varname].add(node)
+        for recorder in self.assignment_recorders:
+            recorder.setdefault(varname, []).append(node)
         self._add_composite(varname)
         return frozenset([node])
 
@@ -1209,16 +1213,21 @@ class FunctionScope(Scope):
         each variable's definition nodes include all of these assignments.
 
         """
-        old_defn_nodes = self.get_all_definition_nodes()
-        with self.subscope() as inner_scope:
-            yield inner_scope
-        new_defn_nodes = self.get_all_definition_nodes()
+        # Record the assignments made while the block is visited. Comparing
+        # name_to_all_definition_nodes before and after is not enough: a block
+        # that is visited a second time (a finally block, a loop body) adds nothing new.
+        recorder: dict[Varname, list[Node]] = {}
+        self.assignment_recorders.append(recorder)
+        try:
+            with self.subscope() as inner_scope:
+                yield inner_scope
+        finally:
+            self.assignment_recorders.pop()
         rest_scope = {
-            key: list(nodes - old_defn_nodes.get(key, set()))
-            for key, nodes in new_defn_nodes.items()
-            if key != LEAVES_SCOPE
+            key: list(OrderedDict.fromkeys(nodes))
+            for key, nodes in recorder.items()
+            if key != LEAVES_SCOPE and key != LEAVES_LOOP
         }
-        rest_scope = {key: nodes for key, nodes in rest_scope.items() if nodes}
         with self.subscope() as dummy_subscope:
             pass
         all_keys = set(rest_scope) | set(dummy_subscope)
@@ -1226,7 +1235,9 @@ class FunctionScope(Scope):
             key: [*dummy_subscope.get(key, []), *rest_scope.get(key, [])]
             for key in all_keys
         }
-        self.combine_subscopes([dummy_subscope, new_scope])
+        # inner_scope adds no definitions (new_scope has them all), but if the block
+        # ends in break or continue it has to reach the enclosing loop's exit scopes.
+        self.combine_subscopes([dummy_subscope, new_scope, inner_scope])
 
     @contextlib.contextmanager
     def subscope(self) -> Iterator[SubScope]:
